@@ -271,6 +271,31 @@ func (r *Run) countTree(t *Ex) {
 func famC01(r *Run) {
 	r.corpusSearch("compliance", func(f exprFeatures) bool { return f.lexOK && !f.proj && !f.logic && !f.funcs })
 	r.treeCases("G-expr-core", r.n(1500, 20000), Features{Paren: true, Hostile: true}, 4)
+	// raw strings with several quotes and backslashes, alone and inside core expressions
+	alpha := []string{"a", "'", "\\", " ", "\u00e9", "b'", "''"}
+	for i := 0; i < r.n(150, 2000); i++ {
+		var sb strings.Builder
+		for k := r.rng.Intn(7); k > 0; k-- {
+			sb.WriteString(alpha[r.rng.Intn(len(alpha))])
+		}
+		str := sb.String()
+		if !rawSpellable(str) {
+			continue
+		}
+		raw := &Ex{K: "raw", Name: str}
+		var t *Ex
+		switch r.rng.Intn(3) {
+		case 0:
+			t = raw
+		case 1:
+			t = &Ex{K: "pipe", L: &Ex{K: "ident", Name: "foo"}, Rt: &Ex{K: "mslist", Es: []*Ex{raw, &Ex{K: "ident", Name: "bar"}}}}
+		default:
+			t = &Ex{K: "mshash", KVs: []KV{{false, "k", raw}, {false, "l", &Ex{K: "raw", Name: "x'" + str}}}}
+		}
+		doc := map[string]interface{}{"foo": map[string]interface{}{"bar": 1.0}}
+		text := t.text(textOpts{})
+		r.addTree("raw-strings", t, text, doc, "exact")
+	}
 }
 
 // ---- C02: projections ----
@@ -345,6 +370,43 @@ func famC03(r *Run) {
 		}
 	}
 	r.corpusAst("compliance", false)
+	// projection scope: whatever follows a multi-select, an index or a filter inside the
+	// right-hand side of a projection still belongs to that right-hand side
+	{
+		var d interface{}
+		json.Unmarshal([]byte(`{"xs":[{"a":{"n":1},"b":[1,2]},{"a":{"n":2},"b":[3]}],"o":{"p":{"a":{"n":5},"b":[7]}}}`), &d)
+		id := func(n string) *Ex { return &Ex{K: "ident", Name: n} }
+		hash := func() *Ex {
+			return &Ex{K: "mshash", KVs: []KV{{false, "k", &Ex{K: "sub", L: id("a"), Rt: id("n")}}, {false, "l", id("b")}}}
+		}
+		list := func() *Ex { return &Ex{K: "mslist", Es: []*Ex{&Ex{K: "sub", L: id("a"), Rt: id("n")}, id("b")}} }
+		zero := int64(0)
+		conts := []func(h *Ex) *Ex{
+			func(h *Ex) *Ex { return &Ex{K: "sub", L: h, Rt: id("k")} },
+			func(h *Ex) *Ex { return &Ex{K: "index", L: h, I: 0} },
+			func(h *Ex) *Ex { return &Ex{K: "sub", L: &Ex{K: "sub", L: h, Rt: id("l")}, Rt: id("x")} },
+			func(h *Ex) *Ex { return &Ex{K: "slice", L: h, A: &zero, R: Rhs{0, nil}} },
+			func(h *Ex) *Ex { return &Ex{K: "listproj", L: h, R: Rhs{0, nil}} },
+			func(h *Ex) *Ex { return &Ex{K: "flatten", L: h, R: Rhs{0, nil}} },
+			func(h *Ex) *Ex { return &Ex{K: "filter", L: h, Cond: &Ex{K: "current"}, R: Rhs{0, nil}} },
+		}
+		projs := []func(rhs *Ex) *Ex{
+			func(rhs *Ex) *Ex { return &Ex{K: "listproj", L: id("xs"), R: Rhs{1, rhs}} },
+			func(rhs *Ex) *Ex { return &Ex{K: "flatten", L: id("xs"), R: Rhs{1, rhs}} },
+			func(rhs *Ex) *Ex { return &Ex{K: "filter", L: id("xs"), Cond: id("a"), R: Rhs{1, rhs}} },
+			func(rhs *Ex) *Ex { return &Ex{K: "valproj", L: id("o"), R: Rhs{1, rhs}} },
+			func(rhs *Ex) *Ex { return &Ex{K: "slice", L: id("xs"), A: &zero, R: Rhs{1, rhs}} },
+		}
+		for _, pj := range projs {
+			for _, ct := range conts {
+				for _, h := range []*Ex{hash(), list()} {
+					t := pj(ct(h))
+					text := t.text(textOpts{})
+					r.addTree("projection-scope", t, text, d, modeFor(text, d))
+				}
+			}
+		}
+	}
 }
 
 func sameNode(a, b jmespath.VerifNode) bool {
@@ -500,6 +562,38 @@ func famC05(r *Run) {
 		{
 			d := g.rootDoc()
 			r.addSearch("corpus", e, d, modeFor(e, d))
+		}
+	}
+	// slices with steps and bounds at the edge of the integer range, on arrays they traverse
+	{
+		const maxI = int64(9223372036854775807)
+		var steps []int64
+		for k := int64(0); k < 4; k++ {
+			steps = append(steps, maxI-k, -(maxI - k))
+		}
+		steps = append(steps, -maxI-1, 4611686018427387904, -4611686018427387904)
+		bounds := []*int64{nil}
+		for _, b := range []int64{0, 1, 2, 3, -1, -2, maxI, -maxI - 1} {
+			x := b
+			bounds = append(bounds, &x)
+		}
+		for n := 1; n <= 5; n++ {
+			arr := make([]interface{}, n)
+			for i := range arr {
+				arr[i] = float64(i)
+			}
+			for _, st := range steps {
+				for _, a := range bounds {
+					for _, b := range bounds {
+						if r.tier != "thorough" && r.rng.Intn(4) != 0 {
+							continue
+						}
+						stc := st
+						t := &Ex{K: "slice", A: a, B: b, C: &stc}
+						r.addTree("slice-extremes", t, t.text(textOpts{}), arr, "exact")
+					}
+				}
+			}
 		}
 	}
 	var seeds []string
@@ -740,6 +834,53 @@ func famC09(r *Run) {
 	for _, c := range loadCompliance() {
 		if c.File == "functions.json" && !c.IsErr {
 			r.addSearch("compliance:functions.json", c.Expr, c.Given, modeFor(c.Expr, c.Given))
+		}
+	}
+	// direct oracle for order and stability: arrays of 2..60 records with few distinct keys
+	// (number and string keys); the expected order is computed here, independently
+	for i := 0; i < r.n(60, 600); i++ {
+		n := 2 + r.rng.Intn(59)
+		nk := 1 + r.rng.Intn(4)
+		strKeys := r.rng.Intn(2) == 0
+		var arr []interface{}
+		keyOf := make([]int, n)
+		for j := 0; j < n; j++ {
+			k := r.rng.Intn(nk)
+			keyOf[j] = k
+			var kv interface{} = float64(k)
+			if strKeys {
+				kv = string(rune('a' + k))
+			}
+			arr = append(arr, map[string]interface{}{"k": kv, "i": float64(j)})
+		}
+		doc := map[string]interface{}{"arr": arr}
+		// stable ascending order of positions, first maximum, first minimum
+		var want []interface{}
+		for k := 0; k < nk; k++ {
+			for j := 0; j < n; j++ {
+				if keyOf[j] == k {
+					want = append(want, float64(j))
+				}
+			}
+		}
+		firstMax, firstMin := 0, 0
+		for j := 1; j < n; j++ {
+			if keyOf[j] > keyOf[firstMax] {
+				firstMax = j
+			}
+			if keyOf[j] < keyOf[firstMin] {
+				firstMin = j
+			}
+		}
+		for _, q := range []struct {
+			e    string
+			want interface{}
+		}{{"sort_by(arr, &k)[*].i", want}, {"max_by(arr, &k).i", float64(firstMax)}, {"min_by(arr, &k).i", float64(firstMin)}} {
+			c := r.addSearch("order-oracle", q.e, doc, "exact")
+			if c != nil && !(c.goObs.Kind == "val" && jsonEqual(c.goObs.Value, q.want)) {
+				wb, _ := json.Marshal(q.want)
+				r.violate("order-oracle", q.e, doc, "not the ascending stable order / the first extremal element", c.goObs.String()+" want "+string(wb))
+			}
 		}
 	}
 }
